@@ -1275,6 +1275,58 @@ def check_frame(ctx, tu):
     ctx.floor(R, n, 3, 'frame(N) for vec3f/vec3d/vec3fa and frame(N, up)')
 
 
+# ============================================================================================
+#  purity: no mutable static state in the transform headers
+# ============================================================================================
+PURE_HEADERS = ('rkcommon/math/LinearSpace.h', 'rkcommon/math/AffineSpace.h', 'rkcommon/math/Quaternion.h')
+
+
+def _static_state(tu, files):
+    """(VarDecl, function record) for every non-const variable with static / thread storage duration that is local to a function defined
+    in `files` (template patterns and their instantiations included)"""
+    out = []
+    for n in tu.nodes.values():
+        if n.get('kind') != 'VarDecl' or not (n.get('storageClass') == 'static' or n.get('tls')):
+            continue
+        qt = n.get('type', {}).get('qualType', '')
+        if re.match(r'^const\b', qt) or n.get('constexpr'):
+            continue
+        f = None
+        cur = tu.par(n)
+        for _ in range(60):
+            if cur is None:
+                break
+            if cur.get('id') in tu.functions:
+                f = tu.functions[cur['id']]
+                break
+            cur = tu.par(cur)
+        if f is not None and any(tu.fn_file(f) == x or tu.fn_file(f).endswith('/' + x) for x in files):
+            out.append((n, f))
+    return out
+
+
+def check_purity(ctx, tu):
+    R = 'R-C06-pure'
+    ctx.describe(R, 'rotate / xfm* / frame / slerp / orthogonal compute their result from their arguments only: no function of the transform '
+                    'headers (templates included) keeps a non-const function-local static or thread-local variable (such state makes a result depend on earlier calls and races between threads)')
+    found = _static_state(tu, PURE_HEADERS)
+    for n, f in found:
+        fn = f['q'].replace('rkcommon::math::', '')
+        ctx.violation(R, '%s in %s' % (n.get('name', '?'), fn),
+                      'mutable variable `%s` (%s) with static storage duration in function `%s`: the transform is no longer a function of '
+                      'its arguments - the value seen depends on earlier calls, and concurrent callers race on it' % (
+                          n.get('name', '?'), n.get('type', {}).get('qualType', ''), fn), tu.fn_loc(f),
+                      key='%s|%s|%s|static-state' % (R, tu.fn_file(f), fn.split('<')[0]))
+    if not found:
+        nf = sum(1 for f in tu.functions.values() if any(tu.fn_file(f) == h for h in PURE_HEADERS))
+        ctx.ok(R, 'transform headers', 'no mutable static / thread-local state in %s (%d function definitions in this unit)' % (
+            ', '.join(h.split('/')[-1] for h in PURE_HEADERS), nf), PURE_HEADERS[0])
+    # self-check on the driver's own examples
+    own = sorted(n.get('name') for n, f in _static_state(tu, (SHAPE_DRIVER,)))
+    if own != ['last_r', 'last_s']:
+        ctx.broken('%s self-check: expected exactly last_r, last_s to be reported on %s, got %s' % (R, SHAPE_DRIVER, own))
+
+
 def run(ctx):
     R = 'R-C06'
     ctx.describe(R, 'lhs and rhs of the identity driver have the same exact rational-function normal form for every output '
@@ -1399,6 +1451,7 @@ def run(ctx):
     check_slerp(ctx, tu)
     check_orthogonal(ctx, tu)
     check_frame(ctx, tu)
+    check_purity(ctx, tu)
     ctx.extra['ir_units'] = ir_units
     ctx.extra['programs'] = len(ir_units)
     ctx.extra['disagreements_checked'] = len(ctx.obl)
